@@ -121,6 +121,21 @@ def run_parse_cases(run, cases, witness_for=None, timeout=900, mem_gb=12, tv=Tru
         handle_result(run, r, c)
     return results
 
+def confirm_ub(c, inp):
+    """undefined behaviour found by the solver seldom crashes a native run (pointer formation, intra-object overflow).  Confirmation = the compilers'
+       constant evaluators, which must reject an evaluation meeting UB: the same grammar (trivial constexpr functors) parses the same bytes in a constexpr context."""
+    import emit
+    src = os.path.join(c.wd, 'probe_%s_%s.cpp' % (c.name, vlib.hexs(inp)[:24]))
+    with open(src, 'w') as f: f.write(emit.constexpr_probe_cpp(c.g, inp, ws=c.ws, nl=c.nl))
+    rej = {}
+    for cc, extra in (('clang++-14', ['-fconstexpr-steps=100000000']), ('g++', ['-fconstexpr-ops-limit=1000000000', '-fconstexpr-loop-limit=10000000'])):
+        rc, out, w, _ = vlib.run([cc, '-std=c++17', '-I' + os.path.join(vlib.REPO, 'include'), '-fsyntax-only'] + extra + [src], timeout=600, mem_gb=16)
+        if rc != 0:
+            notes = [l.strip() for l in out.split('\n') if 'note:' in l or 'error:' in l]
+            pick = [l for l in notes if any(k in l for k in ('cannot refer', 'outside', 'out of', 'bounds', 'dereferenc', 'read of', 'not a constant', 'subscript', 'overflow', 'past the end'))]
+            rej[cc] = (pick or notes or ['rejected'])[0][:200]
+    return rej
+
 def classify_failed(r):
     props = [f for f in r['failed'] if 'PROP:' in f['desc']]
     unwind = [f for f in r['failed'] if 'unwinding assertion' in f['desc']]
@@ -137,9 +152,11 @@ def handle_result(run, r, c):
         k = r['meta']['known']
         if r['status'] == 'sat':
             inp = r['inputs'].get('IN', [])
-            rep = c.run_native('real', inp, r['inputs'].get('OPTS')) if c and c.native.get('real') else None
+            if not c.native: c.build_native()
+            rep = c.run_native('real', inp, r['inputs'].get('OPTS') if isinstance(r['inputs'].get('OPTS'), int) else None, extra=r['inputs']) if c and c.native.get('real') else None
             run.replays += 1
             if rep and rep['verdict'] in ('FAIL', 'CRASH'): run.known_finding(k)
+            elif c is not None and c.mode == 'safety' and confirm_ub(c, inp): run.known_finding(k)
             else: run.inconclusive.append('known finding %s: counterexample did not replay' % k['what'])
         elif r['status'] != 'unsat': run.inconclusive.append('known-finding confirmation %s: %s' % (r['id'], r['reason']))
         return
@@ -161,6 +178,17 @@ def handle_result(run, r, c):
             'ctx_rules': [i for i, x in enumerate(c.g.rules) if x['f'] == 'ctxhash'] if c else []}
     if mach and any('no body' in f['desc'] for f in mach):
         run.inconclusive.append('%s: %s' % (r['id'], desc)); return
+    if c is not None and c.mode == 'safety' and unwind and not props and not other:
+        # termination: does the real code hang on this input?
+        if rep and rep['rc'] == -9: run.violation('parse does not terminate on input %s (unit %s): %s' % (vlib.hexs(inp), r['meta'].get('unit'), desc), robj)
+        else: run.inconclusive.append('%s: %s on input %s; the native run terminates - unwinding bound too small' % (r['id'], desc, vlib.hexs(inp)))
+        return
+    if c is not None and c.mode == 'safety' and other and not (rep and rep['verdict'] in ('FAIL', 'CRASH')):
+        rej = confirm_ub(c, inp); robj['constexpr_rejected_by'] = rej
+        if rej: run.violation('undefined behaviour on input %s (unit %s): %s; confirmed: constant evaluation of the same parse is rejected by %s' % (
+                              vlib.hexs(inp), r['meta'].get('unit'), desc, '; '.join('%s (%s)' % kv for kv in rej.items())), robj)
+        else: run.inconclusive.append('%s: solver reports %s on input %s but neither constant evaluator rejects the parse and the native run shows no symptom' % (r['id'], desc, vlib.hexs(inp)))
+        return
     if rep and rep['verdict'] in ('FAIL', 'CRASH'):
         run.violation('%s on input %s (unit %s): solver counterexample reproduces natively: %s' % (desc, vlib.hexs(inp), r['meta'].get('unit'), rep['why'][:160]), robj)
     elif rep and rep['verdict'] == 'OK':
